@@ -144,6 +144,7 @@ GEN_GROUPS = {   # group -> (groups it builds on, proof files, theorems whose `P
                 "C03_translated_trailer_ignored", "C03_translated_parse_packet", "C03_translated_should_fingerprint"]),
     "http": ([], ["GenP_http.v", "GenHdrP.v"], ["gen_find_http_match_eq", "gen_software_eq", "gen_dishonest_eq", "gen_headers_match_eq", "gen_http_signatures_match_eq", "gen_rec_matches_eq", "gen_fingerprint_http_eq"]),
 }
+FORCE_TIE = [False]     # thorough tier: recompile every tie (no cache), so that coqchk sees the .vo files of this very translation
 GEN_PRELIB = {"layers": ["GenLayLib.v"]}      # hand-written libraries a group's generated file imports (compiled before it, part of its hash)
 GEN_EXTRA_TRANSLATOR = {"layers": "lay2coq.py"}   # groups written by a translator of their own (built on py2coq as a library)
 GEN_MODEL_FILES = ["Model/Prelude.v", "Model/Bits.v", "Model/Sig.v", "Model/Matcher.v", "Model/Select.v", "Model/Uptime.v", "Model/Mtu.v", "Model/Options.v", "Model/Text.v",
@@ -197,7 +198,7 @@ def gen_tie(groups=None):
                     for pf in GEN_GROUPS[d][1]:
                         h.update((COQ / "Gen" / pf).read_bytes())
                 cache = WORK / "gen_tie_cache" / ("%s-%s.json" % (g, h.hexdigest()))
-                if cache.exists():
+                if cache.exists() and not FORCE_TIE[0]:
                     r = json.load(open(cache))
                 else:
                     cmds = ["timeout 300 coqc -Q . PV Gen/GenLib.v"] if not (COQ / "Gen" / "GenLib.vo").exists() or \
@@ -265,7 +266,7 @@ def gen_tie_single(tag, translator, generated, proofs, theorems, model_files, pr
                 + [COQ / "Gen" / x for _, pgen, ppf in pre for x in (pgen, ppf)] + [VERIF / "translate" / ptr for ptr, _, _ in pre]:
             h.update(f.read_bytes() if f.exists() else b"<missing>")
         cache = WORK / "gen_tie_cache" / ("%s-%s.json" % (tag, h.hexdigest()))
-        if cache.exists():
+        if cache.exists() and not FORCE_TIE[0]:
             return json.load(open(cache))
         if pre:
             rc, out = sh(" && ".join("timeout 1200 coqc -Q . PV Gen/%s" % f for _, pgen, ppf in pre for f in (pgen, ppf)), 3900, cwd=COQ)
@@ -487,6 +488,40 @@ def run_check(prop, tier, replay=None):
                     proof["log"] = g["detail"]
 
     coqchk = None
+    if tier == "thorough" and proof.get("ok") and not replay and proof.get("gen_tie"):
+        # the ties were re-checked above from the cache or by coqc; for the thorough tier they are recompiled now (no cache) under the lock and
+        # their last proof file (which depends on the generated file, the equivalence proofs and the corollaries) goes through coqchk as well
+        spec = getattr(mod, "GEN_TIE")
+        spec = [spec] if isinstance(spec, str) else list(spec)
+        last = []
+        for x in spec:
+            if x in GEN_GROUPS:
+                last.append(GEN_GROUPS[x][1][-1])
+        last += {"imp": ["GenImpC.v"], "sig": ["GenSigC.v"], "file": ["GenDbC.v"], "httpx": ["GenHttpC.v"]}.get("imp" if "imp" in spec else "", [])
+        for k, f in (("sig", "GenSigC.v"), ("file", "GenDbC.v"), ("httpx", "GenHttpC.v")):
+            if k in spec:
+                last.append(f)
+        FORCE_TIE[0] = True
+        lock = open(WORK / "gen_tie.lock2", "w")
+        fcntl.flock(lock, fcntl.LOCK_EX)          # one thorough tie re-check at a time (the inner lock is taken per tie)
+        try:
+            groups = [x for x in spec if x in GEN_GROUPS]
+            redo = ([gen_tie(groups)] if groups else []) + [f() for k, f in (("imp", gen_tie_imp), ("sig", gen_tie_sig), ("file", gen_tie_file), ("httpx", gen_tie_httpx)) if k in spec]
+            chk = []
+            if all(r["ok"] for r in redo):
+                for f in last:
+                    rc, out = sh("timeout 1500 coqchk -silent -o -Q . PV PV.Gen.%s" % f[:-2], 1600, cwd=COQ)
+                    m = re.search(r"\* Axioms:(.*?)\n\s*\n\* Constants/Inductives relying on type-in-type:(.*?)\n", out, flags=re.S)
+                    chk.append({"file": "Gen/" + f, "rc": rc, "axioms": m.group(1).strip() if m else "?", "type_in_type": m.group(2).strip() if m else "?"})
+        finally:
+            FORCE_TIE[0] = False
+            lock.close()
+        proof["gen_tie_coqchk"] = chk
+        bad = [r for r in redo if not r["ok"]] or [c for c in chk if c["rc"] != 0 or c["axioms"] != "<none>" or c["type_in_type"] != "<none>"]
+        if bad:
+            proof["ok"] = False
+            proof["broken"] = "thorough re-check of the translator ties (fresh compile + coqchk -o): %s" % str(bad[0])[:400]
+            proof["log"] = str(bad)[:1500]
     if tier == "thorough" and proof.get("ok") and not replay:
         # independent re-check of the compiled property file and everything it depends on
         rc, out = sh("timeout 1500 coqchk -silent -o -Q . PV PV.Properties.%s" % prop, 1600, cwd=COQ)
@@ -691,7 +726,7 @@ def run_check(prop, tier, replay=None):
         "exhaustive": False, "exhaustive_subdomains": exhaustive if isinstance(exhaustive, (dict, list)) else {},
         "proof_ok": proof["ok"],
         "in_coq_cross_check_of_extraction": coq_shard,
-        "coqchk": coqchk,
+        "coqchk": coqchk, "gen_tie_coqchk": proof.get("gen_tie_coqchk"),
     }
     ev["assumptions"] = getattr(mod, "ASSUMPTIONS", [])
     ev["violations"] = len(violations)
